@@ -13,12 +13,12 @@ ranges are those of the machines chained with the running offsets.
 -/
 namespace D2P
 
-/-- between paragraphs: nothing open, nothing queued, `k` run strings so far (html off) -/
+/-- between paragraphs: nothing open, nothing queued, `k` run strings so far -/
 structure Out (s : DC) (k : Nat) : Prop where
   closed : s.openPars = []
   noq : s.queued = []
   leaf : countStrings (leafParsL s.root) = .ok k
-  unst : Unst s
+  sty : Sty okStyles s
 
 theorem countStrings_append : ∀ (a b : List Par) (ka kb : Nat), countStrings a = .ok ka → countStrings b = .ok kb →
     countStrings (a ++ b) = .ok (ka + kb)
@@ -35,17 +35,19 @@ theorem countStrings_append : ∀ (a b : List Par) (ka kb : Nat), countStrings a
 def isSimplePar (x : Xml) : Bool :=
   x.ptag == paragraphTag && simpleL x.kids
 
-/-- the machine for one paragraph: the list marker is a string of its own, then the children -/
+/-- the machine for one paragraph: the list marker is a run of its own, then the children -/
 def parMachine (cfg : PartCfg) (num : Dict Str (List NumAttr)) (c : Bool) (k : Nat) (marker : Str) (x : Xml)
     (ranges : Dict Str (Nat × Nat)) : M RS :=
-  runsOfL cfg k (linksOf cfg num c) x.kids ⟨RState.ins ([], []) marker, ranges⟩
+  runsOfL cfg k (linksOf cfg num c) x.kids ⟨RState.init.ins marker, ranges⟩
 
-/-- **one paragraph, between paragraphs** -/
-theorem par_runs (cfg : PartCfg) (hc : cfg.html = false) (num : Dict Str (List NumAttr)) (c : Bool) (k : Nat)
+/-- **one paragraph, between paragraphs** (either html mode; `tag`: the paragraph has tags of its own,
+which are two further strings of the finished paragraph, one of them before its runs) -/
+theorem par_runs (cfg : PartCfg) (num : Dict Str (List NumAttr)) (c : Bool) (k : Nat)
     (x : Xml) (hx : isSimplePar x = true) (s s' : DC) (ho : Out s k) (h : walk cfg num c s x = .ok s') :
-    ∃ bb st, getBullet s.bullets x ((x.id?).getD 0) = .ok bb ∧ parMachine cfg num c k bb.2 x s.ranges = .ok st ∧
-      Out s' (k + st.r.count) ∧ s'.ranges = st.ranges ∧
-      ∃ p', leafParsL s'.root = leafParsL s.root ++ [p'] ∧ texts p'.runs = st.r.strings := by
+    ∃ tag bb st, getBullet s.bullets x ((x.id?).getD 0) = .ok bb ∧
+      parMachine cfg num c (k + tagOff tag) bb.2 x s.ranges = .ok st ∧
+      Out s' (k + 2 * tagOff tag + st.r.count) ∧ s'.ranges = st.ranges ∧
+      ∃ p', leafParsL s'.root = leafParsL s.root ++ [p'] ∧ kept p'.runs = st.r.runs ∧ p'.htmlStyle.isEmpty = !tag := by
   cases x with
   | comment _ _ =>
     simp only [isSimplePar, Bool.and_eq_true, beq_iff_eq] at hx
@@ -72,59 +74,65 @@ theorem par_runs (cfg : PartCfg) (hc : cfg.html = false) (num : Dict Str (List N
     subst hrec
     -- opening the paragraph
     unfold openParagraph at hop
-    rw [hc] at hop
     obtain ⟨sa, ha, hop⟩ := bind_ok hop
     obtain ⟨bb, hbb, hop⟩ := bind_ok hop
     obtain ⟨sb, hb, hop⟩ := bind_ok hop
     have := pure_ok hop; subst this
     generalize (listPosition bb.1 (Xml.elem i pf t m a tx tl ks) ((Xml.elem i pf t m a tx tl ks).id?.getD 0)).2 = LP at h
-    have u1 : Unst s1 := unst_of_frame s s1 f1 ho.unst
-    have ua := commencePar_unst s1 sa _ c u1 ha
-    obtain ⟨p0, a1, a2, _, a4, a5, a6, a7, _, _⟩ := commencePar_spec false s1 sa _ c ha
+    have u1 : Sty okStyles s1 := sty_of_frame s s1 f1 ho.sty
+    have ua := commencePar_sty (okSpec cfg.html) s1 sa _ c u1 ha
+    obtain ⟨p0, a1, a2, _, a4, a5, a6, a7, _, _⟩ := commencePar_spec cfg.html s1 sa _ c ha
     have hp0 : sa.openPars = [p0] := by rw [a1, f1.openPars, ho.closed]; rfl
     have hruns0 : p0.runs = [] := by rw [a2, f1.queued, ho.noq]
-    have ina : In ({ sa with bullets := (listPosition bb.1 (Xml.elem i pf t m a tx tl ks) ((Xml.elem i pf t m a tx tl ks).id?.getD 0)).1 } : DC) k p0 :=
-      ⟨hp0, by show countStrings (leafParsL sa.root) = _; rw [a4, f1.leaves]; exact ho.leaf, ⟨ua.tree, ua.open_, ua.queued⟩, a5⟩
-    obtain ⟨pb, ib, rb, gb, ab⟩ := insertNewRun_runs _ sb k p0 bb.2 ina hb
-    have habs0 : absP p0 = ([], []) := by simp [absP, hruns0, texts, lastText]
+    refine ⟨!p0.htmlStyle.isEmpty, ?_⟩
+    have ina : In ({ sa with bullets := (listPosition bb.1 (Xml.elem i pf t m a tx tl ks) ((Xml.elem i pf t m a tx tl ks).id?.getD 0)).1 } : DC) k (!p0.htmlStyle.isEmpty) p0 :=
+      ⟨hp0, by show countStrings (leafParsL sa.root) = _; rw [a4, f1.leaves]; exact ho.leaf, ⟨ua.tree, ua.open_, ua.queued⟩, a5, by simp⟩
+    obtain ⟨pb, ib, rb, gb, ab⟩ := insertNewRun_runs cfg.html _ sb k _ p0 bb.2 ina hb
+    have habs0 : absP p0 = RState.init := by simp [absP, hruns0, kept, lastRun, RState.init]
     -- the list position is recorded on the paragraph: the runs are untouched
-    have um : Unst (sb.modTop fun p => { p with listPos := LP }) :=
-      modTop_unst sb _ ib.unst (fun p hp => hp)
-    have im := in_modTop ib (fun p => { p with listPos := LP }) um
+    have um : Sty okStyles (sb.modTop fun p => { p with listPos := LP }) :=
+      modTop_sty sb _ ib.sty (fun p hp => hp)
+    have im := in_modTop ib (fun p => { p with listPos := LP }) um rfl
     obtain ⟨_, mr, mg⟩ := modTop_one sb pb (fun p => { p with listPos := LP }) ib.one
     -- the children
     obtain ⟨s3, h3, h⟩ := bind_ok h
     simp only [if_true] at h3
-    obtain ⟨p3, i3, r3, o3⟩ := walkL_runs cfg hc num k c ks _ s3 _ hx.2 im h3
+    obtain ⟨p3, i3, r3, o3⟩ := walkL_runs cfg num k _ c ks _ s3 _ hx.2 im h3
     -- closing the paragraph
     obtain ⟨s4, h4, h⟩ := bind_ok h
     unfold closeStep at h4
     simp only [hm] at h4
     have hlast : s3.openPars.getLast? = some p3 := by rw [i3.one]; rfl
     obtain ⟨c1, c2, c3, c4, _⟩ := concludePar_spec s3 s4 p3 hlast h4
-    have u4 := concludePar_unst s3 s4 i3.unst h4
+    have u4 := concludePar_sty s3 s4 i3.sty h4
     have f5 := setCaret_frame s4 s' _ _ h
-    have hp3 : p3.unstyled := i3.unst.open_ p3 (by rw [i3.one]; simp)
+    have hp3 : p3.sty okStyles := i3.sty.open_ p3 (by rw [i3.one]; simp)
     have hstart : absS (sb.modTop fun p => { p with listPos := LP }) { pb with listPos := LP }
-        = ⟨RState.ins ([], []) bb.2, s.ranges⟩ := by
+        = ⟨RState.init.ins bb.2, s.ranges⟩ := by
       simp only [absS, mg, gb]
       show (⟨absP pb, sa.ranges⟩ : RS) = _
       rw [ab, habs0, a6, f1.ranges]
     rw [hstart] at o3
-    refine ⟨bb, absS s3 p3, ?_, by simpa [parMachine, Xml.kids] using o3, ?_, ?_, p3, ?_, ?_⟩
+    refine ⟨bb, absS s3 p3, ?_, by simpa [parMachine, Xml.kids] using o3, ?_, ?_, p3, ?_, ?_, i3.tagged⟩
     · have hbul : sa.bullets = s.bullets := a7.trans f1.bullets
       rw [← hbul]; exact hbb
-    · refine ⟨by rw [f5.openPars, c2, i3.one]; rfl, by rw [f5.queued, c3]; exact i3.noq, ?_, unst_of_frame s4 s' f5 u4⟩
+    · refine ⟨by rw [f5.openPars, c2, i3.one]; rfl, by rw [f5.queued, c3]; exact i3.noq, ?_, sty_of_frame s4 s' f5 u4⟩
       rw [f5.leaves, c1]
       have hk3 : countStrings (leafParsL s3.root) = .ok k := i3.leaf
-      have h1p : countStrings [p3] = .ok (absP p3).count := by
-        simp only [countStrings, runStrings_plain p3 hp3, ok_bind, absP_count]; rfl
-      exact countStrings_append _ _ _ _ hk3 h1p
+      obtain ⟨l, hl1, hl2⟩ := runStrings_len p3 hp3
+      have h1p : countStrings [p3] = .ok (2 * tagOff (!p0.htmlStyle.isEmpty) + (absP p3).count) := by
+        simp only [countStrings, hl1, ok_bind, absP_count]
+        show Except.ok _ = Except.ok _
+        congr 1
+        rw [hl2, i3.tagged]
+        cases hte : p0.htmlStyle.isEmpty <;> simp [tagOff]
+      have := countStrings_append _ _ _ _ hk3 h1p
+      rw [this]; congr 1; show _ = k + 2 * tagOff _ + (absP p3).count; omega
     · rw [f5.ranges, c4]; rfl
     · rw [f5.leaves, c1, r3, mr, rb]
       show leafParsL sa.root ++ [p3] = _
       rw [a4, f1.leaves]
-    · exact (absP_strings p3).symm
+    · exact (absP_runs p3).symm
 
 /-- the machines of consecutive paragraphs, chained: each starts where the previous one stopped
 (`k` strings so far, the ranges recorded so far); `marker` is the paragraph's list marker (C08) -/
@@ -132,12 +140,13 @@ inductive Chain (cfg : PartCfg) (num : Dict Str (List NumAttr)) (c : Bool) :
     Nat → Dict Str (Nat × Nat) → List Xml → Nat → Dict Str (Nat × Nat) → Prop
   | nil (k : Nat) (r : Dict Str (Nat × Nat)) : Chain cfg num c k r [] k r
   | cons {k : Nat} {r : Dict Str (Nat × Nat)} {x : Xml} {xs : List Xml} {k' : Nat} {r' : Dict Str (Nat × Nat)}
-      (marker : Str) (st : RS) :
-      parMachine cfg num c k marker x r = .ok st → Chain cfg num c (k + st.r.count) st.ranges xs k' r' →
+      (tag : Bool) (marker : Str) (st : RS) :
+      parMachine cfg num c (k + tagOff tag) marker x r = .ok st →
+      Chain cfg num c (k + 2 * tagOff tag + st.r.count) st.ranges xs k' r' →
       Chain cfg num c k r (x :: xs) k' r'
 
 /-- **any number of paragraphs**: a range may start in one and end in a later one -/
-theorem pars_runs (cfg : PartCfg) (hc : cfg.html = false) (num : Dict Str (List NumAttr)) (c : Bool) :
+theorem pars_runs (cfg : PartCfg) (num : Dict Str (List NumAttr)) (c : Bool) :
     ∀ (xs : List Xml), (∀ x ∈ xs, isSimplePar x = true) → ∀ (k : Nat) (s s' : DC), Out s k → walkL cfg num c s xs = .ok s' →
       ∃ k', Chain cfg num c k s.ranges xs k' s'.ranges ∧ Out s' k'
   | [], _, k, s, s', ho, h => by
@@ -146,10 +155,10 @@ theorem pars_runs (cfg : PartCfg) (hc : cfg.html = false) (num : Dict Str (List 
   | x :: xs, hx, k, s, s', ho, h => by
     simp only [walkL] at h
     obtain ⟨s1, h1, h⟩ := bind_ok h
-    obtain ⟨bb, st, _, hm, ho1, hr1, _⟩ := par_runs cfg hc num c k x (hx x (by simp)) s s1 ho h1
-    obtain ⟨k', hch, ho'⟩ := pars_runs cfg hc num c xs (fun y hy => hx y (by simp [hy])) _ s1 s' ho1 h
+    obtain ⟨tag, bb, st, _, hm, ho1, hr1, _⟩ := par_runs cfg num c k x (hx x (by simp)) s s1 ho h1
+    obtain ⟨k', hch, ho'⟩ := pars_runs cfg num c xs (fun y hy => hx y (by simp [hy])) _ s1 s' ho1 h
     rw [hr1] at hch
-    exact ⟨k', Chain.cons bb.2 st hm hch, ho'⟩
+    exact ⟨k', Chain.cons tag bb.2 st hm hch, ho'⟩
 
 namespace Ex
 /-- non-vacuity: a comment that starts in one paragraph and ends in the next -/
